@@ -747,6 +747,7 @@ inline Scenario decode(Chooser& c, const Profile& pf, vf::Stats& st, bool record
     return s;
 }
 
+inline std::string* g_check_created_ptr = nullptr; // C15: where to report a wrong created_value_ptr (null: not requested)
 inline status do_put(Token tok, const std::string& key, std::uint32_t id, bool unique) {
     if (g_inline_values) {
         std::uintptr_t w = id;
@@ -754,6 +755,21 @@ inline status do_put(Token tok, const std::string& key, std::uint32_t id, bool u
                                    static_cast<value_align_type>(alignof(std::uintptr_t)), unique, static_cast<inserted_node_info*>(nullptr));
     }
     std::string v = value_of(id);
+    if (g_check_created_ptr != nullptr) {
+        // created_value_ptr designates the copy stored by THIS put (whatever other writers do to the key meanwhile)
+        char* created = nullptr;
+        status rc = put<char>(tok, "s", key, v.data(), v.size(), &created, static_cast<value_align_type>(1), unique, static_cast<inserted_node_info*>(nullptr));
+        if (rc == status::OK) {
+            sched::NoYield g;
+            if (created == nullptr || std::memcmp(created, v.data(), v.size()) != 0) {
+                if (g_check_created_ptr->empty()) {
+                    *g_check_created_ptr = "put(\"" + show(key) + "\", v" + std::to_string(id) + ") returned a created_value_ptr that " +
+                                           (created == nullptr ? "is null" : "does not hold the bytes this put stored");
+                }
+            }
+        }
+        return rc;
+    }
     return put<char>(tok, "s", key, v.data(), v.size(), static_cast<char**>(nullptr), static_cast<value_align_type>(1), unique,
                      static_cast<inserted_node_info*>(nullptr));
 }
@@ -1004,6 +1020,8 @@ inline vf::CaseResult run_scenario(const Profile& pf, const Scenario& sc, const 
             return false;
         };
         // ---- scheduled run
+        std::string created_ptr_error;
+        g_check_created_ptr = (pf.prop == "C15" && vf::g_decoder >= 2) ? &created_ptr_error : nullptr;
         Exec ex(sc);
         std::vector<std::function<void()>> bodies;
         for (std::size_t t = 0; t < sc.threads.size(); ++t) {
@@ -1030,6 +1048,8 @@ inline vf::CaseResult run_scenario(const Profile& pf, const Scenario& sc, const 
         for (std::size_t t = 0; t < ex.errors.size(); ++t) {
             if (!ex.errors[t].empty()) { failx("illegal_status", "T" + std::to_string(t) + ": " + ex.errors[t]); }
         }
+        g_check_created_ptr = nullptr;
+        if (!created_ptr_error.empty()) { failx("created_ptr_wrong", created_ptr_error); }
         if (pf.judge_history) {
             for (std::size_t t = 0; t < ex.value_errors.size(); ++t) {
                 if (!ex.value_errors[t].empty()) { failx("value_changed_under_reader", "T" + std::to_string(t) + ": " + ex.value_errors[t]); }
